@@ -1026,8 +1026,23 @@ def vc_max(*a, **kw):
 
 
 def vc_sorted(x, **kw):
-    if isinstance(x, (SList, SRange)):
-        raise Undecided("sorted() of a symbolic-length list (needs a library contract)")
+    if isinstance(x, SRange):
+        return x.to_slist()
+    if isinstance(x, SList):
+        if kw or x.etype != "int":
+            raise Undecided("sorted() of a symbolic list with key/reverse or non-int elements")
+        eng = _st.ENGINE
+        eng.trust("library: sorted(list of ints) = ascending list of the same length; equals its argument when that is already ascending; every element of either list occurs in the other")
+        S = SList.fresh("sorted", "int", length=x.length())
+        n = x.length().t
+        i = eng.fresh("srt_i", z3.IntSort(), bound=True)
+        j = eng.fresh("srt_j", z3.IntSort(), bound=True)
+        eng.assume(z3.ForAll([i], z3.Implies(z3.And(i >= 0, i + 1 < n), S.at(i).t <= S.at(i + 1).t)))
+        asc = z3.ForAll([i], z3.Implies(z3.And(i >= 0, i + 1 < n), x.at(i).t <= x.at(i + 1).t))
+        eng.assume(z3.Implies(asc, z3.ForAll([i], z3.Implies(z3.And(i >= 0, i < n), S.at(i).t == x.at(i).t))))
+        eng.assume(z3.Implies(z3.Not(asc), z3.Exists([i], z3.And(i >= 0, i < n, S.at(i).t != x.at(i).t))))
+        eng.assume(z3.ForAll([i], z3.Implies(z3.And(i >= 0, i < n), z3.Exists([j], z3.And(j >= 0, j < n, S.at(i).t == x.at(j).t)))))
+        return S
     return sorted(x, **kw)
 
 
